@@ -45,7 +45,7 @@ def _name_of(obj):
     "the member name a Renamed node contributes to error paths"
     if type(obj).__name__ == "Renamed":
         n = obj.__dict__.get("name")
-        return n if isinstance(n, str) else "?" if n is not None else ""
+        return n if isinstance(n, str) else str(n)        # Renamed appends "%s" % name to the path whatever it is
     return ""
 
 def path_list(exc):
